@@ -90,7 +90,7 @@ EXPECT = [
     ("return_states returned a later state", ["C07"]), ("loc('all') used the locations", ["C11"]),
     ("views listed (and deleted) recordings of synaptic", ["C19", "C08"]), ("views ignored trainables", ["C19"]),
     ("parameters shared across the view boundary", ["C19"]), ("removable singularity", ["C19", "C08", "C18"]),
-    ("data_set() with an array", ["C10"]),
+    ("data_set() with an array", ["C10"]), ("lost its parameter sharing", ["C19"]),
 ]
 
 
